@@ -237,11 +237,13 @@ def run(case, drv) -> Outcome:
                 x = make_arg(list(dom if which in ('forward', 'gram') else rg), dt, 'view')
                 fn = {'forward': lambda o, x: o(x)[0], 'adjoint': lambda o, x: o.adjoint(x)[0], 'gram': lambda o, x: o.gram(x)[0], 'H': lambda o, x: o.H(x)[0]}[which]
                 calls.append((f'op[{k}].{which}(view)', fn, op, fresh, (x,)))
-    n_flex = len(flex) * 3 if case.get('sweep') else max(2, case['length'] // 5)
+    n_flex = len(flex) * len(flex_shapes) if case.get('sweep') else max(2, case['length'] // 5)
     for i in range(n_flex):
-        k = list(flex)[i % len(flex)] if case.get('sweep') else rng.choice(list(flex))
+        k = list(flex)[i // len(flex_shapes)] if case.get('sweep') else rng.choice(list(flex))
         obj = flex[k]
-        shape = rng.choice(flex_shapes)
+        # sweep: every instance sees every shape, in increasing and (second half of the instances) decreasing rank order
+        order = flex_shapes if (i // len(flex_shapes)) % 2 == 0 else flex_shapes[::-1]
+        shape = order[i % len(flex_shapes)] if case.get('sweep') else rng.choice(flex_shapes)
         x = torch.randn(*shape, dtype=torch.complex64 if 'Op' in k else rng.choice([torch.float32, torch.complex64]))
         if 'Op' in k:
             which = rng.choice(['forward', 'gram'])
@@ -265,6 +267,12 @@ def run(case, drv) -> Outcome:
         log.append(name)
         branches.append(name.split('(')[0])
         if st != 'ok':
+            if fresh is not None:
+                st_f, _ = call(lambda: fn(fresh(), *args))
+                if st_f == 'ok':
+                    viol = {'signature': f'state-leak:{name.split("(")[0]}:raises', 'history': log,
+                            'what': f'{name} raises {str(out)[:120]} on the shared instance (after {log[:-1][-3:]}) but works on a fresh instance'}
+                    break
             continue  # unsupported combination (dtype): not a purity question
         ch = watch.changed()
         if ch:
